@@ -91,6 +91,27 @@ impl<'h> PathObjectPatternGenerator<'h> {
         }
     }
 
+    #[cfg(rosu_pp_verif)]
+    pub(crate) fn verif_inputs(&self) -> String {
+        let is_double = |sample: HitSoundType| sample.has_flag(HitSoundType::CLAP | HitSoundType::FINISH);
+        let head = self.sample_info_list_at(self.start_time);
+
+        format!(
+            r#""k":{},"ct":"{}","span":{},"segdur":{},"start":{},"end":{},"cd":{},"x0":{},"dbl":{},"head":{},"prev":{}"#,
+            self.inner.total_columns,
+            self.convert_type,
+            self.span_count,
+            self.segment_duration,
+            self.start_time,
+            self.end_time,
+            self.inner.conversion_difficulty(),
+            self.inner.get_column(Some(true)),
+            is_double(self.sample) || is_double(head),
+            head.has_flag(HitSoundType::WHISTLE | HitSoundType::FINISH | HitSoundType::CLAP),
+            self.prev_pattern.verif_notes(self.inner.total_columns),
+        )
+    }
+
     pub fn generate(&mut self) -> Vec<Pattern> {
         let orig_pattern = self.generate_();
 
